@@ -275,15 +275,16 @@ def run(chk):
     # 2d. the clients that hold a limiter: what reaches the server obeys the bound (real time, loopback server)
     from harness import wire_driver as wd
     for name, fn in (("binance", wd.run_binance), ("bitstamp", wd.run_bitstamp)):
-        res = asyncio.run(fn(common.rng_for(chk.seed, "C20-clients"), with_tb=True))
+        kw = {"reject": True} if name == "binance" else {}     # two signed requests are rejected for their timestamp
+        res = asyncio.run(fn(common.rng_for(chk.seed, "C20-clients"), with_tb=True, **kw))
         at = sorted(r["received_ms"] / 1000.0 for _, reqs, _ in res for r in reqs)
         chk.count("client_requests_through_limiter", len(at))
-        sc = {"tp": 1, "pd": 1.3, "ini": 1}           # the limiter run_binance / run_bitstamp give their client
+        sc = {"tp": 1, "pd": wd.TB_PERIOD, "ini": 1}  # the limiter run_binance / run_bitstamp give their client
         # received_ms is rounded to the millisecond and taken on arrival: allow 50 ms of jitter per request
         al = monitor_sends(sc, [t + 0.05 * i for i, t in enumerate(at)])
         if al and not any(v[0] == "monitor:client-ignores-limiter" for v in chk.violations):
             chk.violation("monitor:client-ignores-limiter",
-                          f"{name} client holding TokenBucketLimiter(1, 1.3, 1): requests reached the server at "
+                          f"{name} client holding TokenBucketLimiter(1, {wd.TB_PERIOD}, 1): requests reached the server at "
                           f"{[round(t - at[0], 3) for t in at]} s -- {al[0][1]}",
                           {"kind": "monitor", "client": name, "arrival_s": [t - at[0] for t in at]})
     # 3. classification of divergences: monitors already ran on every case; if none fired, the property is no
